@@ -97,6 +97,9 @@ func genProfile(t *simrt.Tape, o genOpts) *profile.Profile {
 	nf := 1 + t.Choose(K, o.maxFuncs)
 	for i := 0; i < nf; i++ {
 		name := funcNames[i%len(funcNames)]
+		if i >= len(funcNames) {
+			name = fmt.Sprintf("%s.%d", name, i/len(funcNames))
+		}
 		if !o.fixedNames && o.tieRich && t.Bool(K, 30) {
 			name = funcNames[t.Choose(K, 3)] // equal names at different ids
 		}
